@@ -278,4 +278,9 @@ def r4(ctx):
         ctx.check(norm(n.ast.value) == fi.params[3], "C04.R4", fi, "slot := the fragment bytes", "stored value is the received fragment", line=n.lineno)
 
 
-RULES = [("C04.R1", r1), ("C04.R2", r2), ("C04.R3", r3), ("C04.R4", r4)]
+def r_enum(ctx):
+    from .common import enum_identity
+    enum_identity(ctx, "C04.R5", ('connection',))
+
+
+RULES = [("C04.R1", r1), ("C04.R2", r2), ("C04.R3", r3), ("C04.R4", r4), ("C04.R5", r_enum)]
